@@ -152,9 +152,12 @@ def load_source(src, tag="p"):
     return mod, fname, modname
 
 
-def decorate(prog, ranks=None, out_ranks=None):
-    """-> Loaded, or raises Refused (any exception while the decorator runs)."""
+def decorate(prog, ranks=None, out_ranks=None, opset=None):
+    """-> Loaded, or raises Refused (any exception while the decorator runs).  `opset`: decorate the same text with
+    another generated opset class (the text 'opset18' of the header is replaced; line numbers are unchanged)."""
     src, marks = sg.render(prog, ranks=ranks, out_ranks=out_ranks, with_marks=True)
+    if opset is not None:
+        src = src.replace("import opset18 as op", f"import opset{opset} as op", 1)
     try:
         mod, fname, modname = load_source(src)
     except Exception as e:  # noqa: BLE001 - the decorator may raise anything (SyntaxError included): refusals
